@@ -18,7 +18,7 @@ def stream(file=sys.stdout):
         file = open(filename, 'w')
 
     def write(obj):
-        file.write(ejson.dumps(obj, sort_keys=True, ensure_ascii=True)+'\n')
+        file.write(ejson.dumps(obj, ensure_ascii=True)+'\n')
         file.flush()
 
     def res_writer(res):
